@@ -75,6 +75,16 @@ def r1(ctx):
             [c for c in sa.callee_names() if "auth::" in c or "crypto::" in c], [c for c in sb.callee_names() if "auth::" in c or "crypto::" in c]), where=b.span_of_block(v["ct_block"]))
         return
     yield PASS("C01-R1", "validate_signature/ct_eq-operands", "one operand derives only from self.signature(), the other from hmac_sha256", [site(b, v["ct_block"], "ct_eq")])
+    # both operands are compared whole and untransformed: no truncation / slicing / case folding / zipping on either chain
+    LOSSY = r"(ops::Index::index|slice::<impl \[T\]>::(get|first|last|split_at|split_first|split_last|chunks\w*|iter|windows|starts_with|ends_with)|str>::(get|split_at|trim\w*|to_\w*case|to_ascii_\w+|chars|bytes|split\w*|strip_\w+|replace\w*|parse)|String::(truncate|pop|remove|drain)|Iterator::\w+|Vec::<T, A>::(truncate|pop|drain|split_off)|to_ascii_(lower|upper)case|hex::decode)$"
+    stop = lambda t: bool(re.search(r"SigV4Authenticator::(get_string_to_sign|get_signing_key)$|GetSigningKeyResponse::signing_key$", t.get("callee", "")))
+    for nm, o in (("presented", ct["args"][0] if pres[0] == "arg0" else ct["args"][1]), ("expected", ct["args"][1] if pres[0] == "arg0" else ct["args"][0])):
+        sl = b.slice_op(o, stop_at_calls=stop)
+        bad = [c for c in sl.callee_names() if re.search(LOSSY, c)]
+        if bad:
+            yield VIOL("C01-R1", "validate_signature/%s-transformed:%s" % (nm, bad[0].split("::")[-1]), "the %s signature is transformed/truncated by `%s` before the comparison: strings that differ from the HMAC can be accepted" % (nm, bad[0]), where=b.span_of_block(v["ct_block"]))
+        else:
+            yield PASS("C01-R1", "validate_signature/%s-untransformed" % nm, "%s signature reaches ct_eq whole (chain: %s)" % (nm, [c.split("::")[-1] for c in sl.callee_names() if "future" not in c and "pin" not in c.lower()][:8]), [])
     # the presented operand must derive from `self` only (no constants other than via accessor)
     self_l = param_by_name(b, "self")
     if self_l not in pres[1].locals:
